@@ -34,6 +34,7 @@ import (
 	"github.com/youzan/ZanRedisDB/pkg/fileutil"
 	"github.com/youzan/ZanRedisDB/pkg/idutil"
 	"github.com/youzan/ZanRedisDB/pkg/types"
+	"github.com/youzan/ZanRedisDB/pkg/verifhook"
 	"github.com/youzan/ZanRedisDB/raft"
 	"github.com/youzan/ZanRedisDB/raft/raftpb"
 	"github.com/youzan/ZanRedisDB/settings"
@@ -685,6 +686,7 @@ func (rc *raftNode) beginSnapshot(snapTerm uint64, snapi uint64, confState raftp
 			rc.Errorf("get snapshot data at index %d failed: %v", snapi, err)
 			return
 		}
+		verifhook.Point("node.snap.afterGetData")
 		rc.Infof("snapshot data : %v\n", string(data))
 		rc.Infof("create snapshot with conf : %v\n", confState)
 		// now we can do the actually snapshot for copy
@@ -696,23 +698,28 @@ func (rc *raftNode) beginSnapshot(snapTerm uint64, snapi uint64, confState raftp
 			rc.Errorf("create snapshot at index %d failed: %v", snapi, err)
 			return
 		}
+		verifhook.Point("node.snap.afterCreate")
 		// SaveSnap saves the snapshot to file and appends the corresponding WAL entry.
 		if err := rc.persistStorage.SaveSnap(snap); err != nil {
 			rc.Errorf("save snapshot at index %v failed: %v", snap.Metadata, err)
 			return
 		}
+		verifhook.Point("node.snap.afterSaveSnap")
 		err = rc.persistStorage.Sync()
 		if err != nil {
 			rc.Errorf("failed to sync wal: %s", err)
 			return
 		}
+		verifhook.Point("node.snap.afterSync")
 		if err = rc.persistStorage.Release(snap); err != nil {
 			rc.Errorf("failed to release wal: %s", err)
 			return
 		}
+		verifhook.Point("node.snap.afterRelease")
 		// update the latest snapshot index for statemachine
 		rc.ds.UpdateSnapshotState(snap.Metadata.Term, snap.Metadata.Index)
 
+		verifhook.Point("node.snap.afterUpdateState")
 		compactIndex := uint64(1)
 		if snapi > uint64(rc.config.SnapCatchup) {
 			compactIndex = snapi - uint64(rc.config.SnapCatchup)
@@ -725,6 +732,7 @@ func (rc *raftNode) beginSnapshot(snapTerm uint64, snapi uint64, confState raftp
 			rc.Errorf("compact log at index %v failed: %v", compactIndex, err)
 			return
 		}
+		verifhook.Point("node.snap.afterCompact")
 		rc.Infof("compacted log at index %d", compactIndex)
 	}()
 	return nil
@@ -1022,6 +1030,7 @@ func (rc *raftNode) processReady(rd raft.Ready) {
 		}
 		rc.lastPublished = newPublished
 		rc.publishEntries(rd.CommittedEntries, rd.Snapshot, applySnapshotTransferResult, raftDone, applyWaitDone)
+		verifhook.Point("node.raft.afterPublish")
 	}
 	if !raft.IsEmptySnap(rd.Snapshot) {
 		// since the snapshot only has metadata, we need rsync the real snapshot data first.
@@ -1049,6 +1058,7 @@ func (rc *raftNode) processReady(rd raft.Ready) {
 	}
 
 	start := time.Now()
+	verifhook.Point("node.raft.beforePersist")
 	// TODO: save entries, hardstate and snapshot should be atomic, or it may corrupt the raft
 	if err := rc.persistRaftState(&rd); err != nil {
 		rc.Errorf("raft save states to disk error: %v", err)
@@ -1088,11 +1098,13 @@ func (rc *raftNode) processReady(rd raft.Ready) {
 				rc.MarkReplayFinished()
 			}
 		}
+		verifhook.Point("node.raft.afterApplySnap")
 		if err := rc.persistStorage.Release(rd.Snapshot); err != nil {
 			rc.Errorf("failed to release Raft wal: %s", err)
 		}
 	}
 	cost2 := time.Since(start)
+	verifhook.Point("node.raft.beforeAppend")
 	rc.raftStorage.Append(rd.Entries)
 	cost3 := time.Since(start) - cost2
 	if cost3 > raftSlow/2 {
@@ -1127,10 +1139,12 @@ func (rc *raftNode) processReady(rd raft.Ready) {
 				rc.Infof("wait apply %v msgs done cost: %v", len(processedMsgs), cost.String())
 			}
 		}
+		verifhook.Point("node.raft.beforeSend")
 		rc.transport.Send(processedMsgs)
 	} else {
 		raftDone <- struct{}{}
 	}
+	verifhook.Point("node.raft.beforeAdvance")
 	rc.node.Advance(rd)
 }
 
@@ -1144,6 +1158,7 @@ func (rc *raftNode) persistRaftState(rd *raft.Ready) error {
 			rc.Errorf("raft save snap error: %v", err)
 			return err
 		}
+		verifhook.Point("node.raft.persist.afterSaveSnap")
 		rc.Infof("raft persist snapshot meta done : %v", rd.Snapshot.String())
 		// update the latest snapshot index for statemachine
 		rc.ds.UpdateSnapshotState(rd.Snapshot.Metadata.Term, rd.Snapshot.Metadata.Index)
